@@ -91,7 +91,9 @@ def obligations(tier, seed):
         Ob("cor_equiv", defines={"G_SEQ": None}, func="h_cor_equiv", unwind=50, unwindset=dict(uw_seq, **{"h_cor_equiv.3": 4}), flags=fs, patch=RF_PATCH,
            desc="vbi_dvb_demux_cor (callback NULL) on the same stream returns the frames the callback interface delivers (lines, PTS), consumes the whole stream",
            encodes=["vbi_dvb_demux_cor", "demux_pes_packet", "demux_pes_packet_frame"], assumes=seq_assumes, bounds="2 packets, shapes 0..2",
-           grid=[dict(TS=0, SHAPE=s) for s in (0, 1, 2, 3, 4, 6, 7)], quick_grid=[dict(TS=0, SHAPE=0), dict(TS=0, SHAPE=6)], reach=["end"], timeout=600, mem_gb=3, vin_size=400, **common),
+           grid=[dict(TS=0, SHAPE=s) for s in (0, 1, 2, 3, 4, 6, 7)] + [dict(TS=0, SHAPE=s, COR_MAX=1) for s in (0, 1)],
+           quick_grid=[dict(TS=0, SHAPE=0), dict(TS=0, SHAPE=6), dict(TS=0, SHAPE=0, COR_MAX=1)],     # COR_MAX=1: the caller's array (exact size) is smaller than the frames
+           reach=["end"], timeout=600, mem_gb=3, vin_size=400, **common),
         Ob("garbage_feed", defines={"G_SEQ": None}, func="h_garbage", unwind=45, unwindset={"memcpy.0": 202, "memmove.0": 50, "memmove.1": 50, "memset.0": 300, "demux_pes_packet.3": 4, "demux_pes_packet.1": 4, "demux_ts_packet.9": 4}, flags=fs, patch=RF_PATCH, solver="cadical",
            desc="LEN1 (+LEN2) fully symbolic bytes fed from reset to the PES resp. TS demultiplexer, callback result symbolic: all safety properties of dvb_demux.c "
                 "(exact-size source buffers, pes_buffer/ts_buffer, pointer arithmetic, overflow, shift), termination inside the unwind bounds, representation invariant "
